@@ -144,6 +144,19 @@ CLAIMED.update({
     ),
 })
 
+CLAIMED.update({
+    "C14": dict(
+        text=("ADT serializer kernels on the real code: MHDR offsets/flags and MCIN entries equal chunk positions for all position values; "
+              "MMID/MWID offsets equal the byte offsets of the names in MMDX/MWMO; write_chunk framing (declared size == bytes written); twelve "
+              "record types satisfy write(read(b)) == b for all contents; thorough: a bare MCNK header goes write->parse->write byte-stable."),
+        design_ref="DESIGN.md section 4, C14; harness/adt/NOTES.md",
+        note=("Stub: std::any::TypeId::eq -> false (forces binrw's generic element path, which moves the same bytes as the fast path CBMC cannot "
+              "fold). Open findings witnessed each run (thorough): KF-C14-mcrf-counts, -mcnk-tail-dropped, -mccv-flag, -mclq-size. Outside: whole-tile "
+              "build->serialise->parse (> 40 min / 7 GB for the smallest tile), chunk discovery (HashMap), MH2O, 145-vertex sub-chunks, re-serialisation "
+              "stability of whole files - the 'parse o serialise = id' clause is decided only for the listed kernels."),
+    ),
+})
+
 NOT_APPLICABLE = {
     "C07": "rebuild is an orchestration over Archive::open + ArchiveBuilder::build through NamedTempFile/persist (file I/O and FFI); Archive::open on even one symbolic field exceeds 14 GB in CBMC; no arithmetic kernel of its own to encode (DESIGN.md section 5)",
     "C09": "quantifies over thread schedules of a rayon pool; Kani/CBMC model no concurrency and rayon's runtime is FFI (DESIGN.md section 5)",
@@ -151,7 +164,7 @@ NOT_APPLICABLE = {
     "C12": "quantifies over kill points and failing system calls of an OS process; the deciding code is tempfile + rename in the kernel/FFI (DESIGN.md section 5)",
     "C20": "property of whole process runs (argument parsing, error propagation to main, stdout); no unit a bounded model checker can drive (DESIGN.md section 5)",
 }
-for _p in ["C13", "C14", "C15"]:
+for _p in ["C13", "C15"]:
     NOT_APPLICABLE.setdefault(_p, WIP)
 
 NOTES = ("Exit codes of bin/check: 0 held, 1 violation (replayed), 2 inconclusive (build error, time-out, OOM, vacuous harness, "
